@@ -370,10 +370,19 @@ pub fn run_c20(tier: &str) -> Report {
                         )),
                     }
                 }
-                if r + 2 <= 29 {
-                    if let (Ok(da), Ok(db)) = (subj::children(c, Some(r + 2)), subj::children(b, Some(r + 2))) {
+                for d in [1, 2] {
+                    if r + d > 29 {
+                        break;
+                    }
+                    if let (Ok(da), Ok(db)) = (subj::children(c, Some(r + d)), subj::children(b, Some(r + d))) {
                         if da.iter().max() >= db.iter().min() {
-                            out.push(viol("C20/descendant-order", format!("descendants of {} do not precede those of {}", subj::hex(c), subj::hex(b)), json!({"kind": "pair", "a": subj::hex(c), "b": subj::hex(b), "d": 2})));
+                            out.push(viol("C20/descendant-order", format!("descendants of {} at depth {} do not precede those of {}", subj::hex(c), d, subj::hex(b)), json!({"kind": "pair", "a": subj::hex(c), "b": subj::hex(b), "d": d})));
+                        }
+                        // the subtree is one id interval: every descendant lies strictly between the cell's
+                        // predecessor and successor at its own resolution
+                        let lo = c.wrapping_sub(stride);
+                        if da.iter().any(|&x| x <= lo || x >= b) && rc::is_canonical(lo) {
+                            out.push(viol("C20/interval-foreign", format!("a descendant of {} at depth {} lies outside the id interval between its neighbours", subj::hex(c), d), json!({"kind": "cell", "id": subj::hex(c)})));
                         }
                     }
                 }
